@@ -24,7 +24,7 @@ ASSUMPTIONS = [
     '--list-tests shows exactly what a run would select (that agreement is C03\'s business)',
 ]
 BOUND = {
-    'quick': 'depth <=2 (47 + 1128 + 27072 chains) x 30 option vectors (each also given as wrapper defaults and split between defaults and command line); all 2x30x47x47 sibling pairs x 8 option vectors',
+    'quick': 'levels beyond the machine-word range (+-10^40, 2^63 boundaries) on test / one suite x 22 level vectors; depth <=2 (47 + 1128 + 27072 chains) x 30 option vectors (each also given as wrapper defaults and split between defaults and command line); all 2x30x47x47 sibling pairs x 8 option vectors',
     'thorough': 'depth <=2 x all 13x10 option vectors; depth 3 (649728 chains) x 27 vectors',
 }
 CHUNK = 1
@@ -51,6 +51,14 @@ MIXED = [['-f', '--layer', 'L1', '-u'], ['-u', '--all', '-f'], ['--all', '-f'], 
          ['--at-level', '0', '-u', '-f']]
 
 
+# integer levels are not machine words
+import sys as _sys
+HUGE = [None, -10 ** 40, -(2 ** 63) - 1, _sys.maxsize, _sys.maxsize + 1, 2 ** 64, 10 ** 40]
+HUGE_VECTORS = LVL_OPTS + [['--at-level', str(_sys.maxsize)], ['--at-level', str(_sys.maxsize + 1)],
+                           ['--at-level', str(10 ** 40)], ['--only-level', str(10 ** 40)],
+                           ['--only-level', str(2 ** 64)], ['--at-level=-%d' % 10 ** 40],
+                           ['--only-level=-%d' % 10 ** 40], ['--all', '-f'], ['--at-level', '0', '-u']]
+
 SIB_VECTORS = [[], ['--all'], ['--at-level', '2'], ['--only-level', '2'], ['-u'], ['-f'],
                ['--all', '--layer', 'L2'], ['--at-level=-1', '-f']]
 
@@ -70,6 +78,18 @@ def leaf_opts():
 
 
 def chains(depth):
+    if depth == 'h':
+        # levels far outside the machine-word range, on the test and on one
+        # enclosing suite
+        hn = [(l, v) for l in (None, 'L1') for v in HUGE]
+        hl = [(l, v, w) for (l, v) in hn for w in ('cls', 'inst')
+              if not (w == 'inst' and l is None and v is None)]
+        for leaf in hl:
+            yield (), leaf
+        for o in hn:
+            for leaf in hl:
+                yield (o,), leaf
+        return
     if depth == 's':
         # siblings: one suite holding two tests directly (the second one
         # optionally wrapped in a suite that declares nothing); what the first
@@ -91,8 +111,8 @@ def chains(depth):
 
 
 def nblocks(depth):
-    if depth == 's':
-        n = sum(1 for _ in chains('s'))
+    if depth in ('s', 'h'):
+        n = sum(1 for _ in chains(depth))
         return (n + BLOCK - 1) // BLOCK
     n = (len(node_opts()) ** depth) * len(leaf_opts())
     return (n + BLOCK - 1) // BLOCK
@@ -169,9 +189,9 @@ def cases(tier, seed):
     # ordinary globals called `layer` / `level` (shared with C03)
     for fi in (0, 1):
         yield ['disk', 'one', fi]
-    depths = [0, 1, 2, 's'] if tier == 'quick' else [0, 1, 2, 's', 3]
+    depths = [0, 1, 2, 's', 'h'] if tier == 'quick' else [0, 1, 2, 's', 'h', 3]
     for d in depths:
-        vs = vectors(tier, d) if d != 's' else SIB_VECTORS
+        vs = HUGE_VECTORS if d == 'h' else (vectors(tier, d) if d != 's' else SIB_VECTORS)
         for b in range(nblocks(d)):
             for vi in worlds.rot(range(len(vs)), seed):
                 yield [d, b, vs[vi]]
@@ -275,6 +295,9 @@ def expected(info, argv):
         elif a == '--only-level':
             only = int(argv[i + 1])
             i += 2
+        elif a.startswith('--only-level='):
+            only = int(a.split('=')[1])
+            i += 1
         elif a == '--all':
             allv = True
             i += 1
